@@ -1,6 +1,8 @@
 """Boundary recorder for ModeDReader / DataReadout."""
 from __future__ import annotations
 
+from vf.mon import clock
+
 
 POISON = object()  # appended by the monitor to every list that read() returned
 
@@ -37,6 +39,7 @@ def run(chunks, reader=None, states: set | None = None):
     kept = []
     err = (None, None)
     for i, ch in enumerate(chunks):
+        clock.tick()
         try:
             msgs = reader.read(ch)
         except Exception as ex:
